@@ -17,10 +17,16 @@ CHECKS = {
              "reformat_text; spec/DocTrace.tla validates each observation: machine lines = observed lines (drift), Read(observed lines) = "
              "document, and -- the verdict -- equal normalised trees of input and output for the real marko AND markdown-it. Family T: 8 "
              "container paths x 30 structure-looking words at every non-initial position x widths x {fill, semantic}; paragraph lines are "
-             "validated against the wrapper machines (WrapTrace / SentenceTrace) and the tree predicate.",
+             "validated against the wrapper machines (WrapTrace / SentenceTrace) and the tree predicate. Further families: P (ordered pairs of 22 block "
+             "snippets), C (each snippet inside 11 container paths), S+ (ordered lists, alerts, footnotes derived from the model's documents), R "
+             "(construct corpus x widths x modes). Inline family: spec/Inline.tla -- CommonMark's delimiter-run reader (flanking, rule of three, one "
+             "closer per step) composed with flowmark's emphasis renderer; every source string up to 5/7 symbols over {word, space, *, _, escaped "
+             "star} is read by both parsers, formatted and read again, and spec/InlineTrace.tla validates reader and renderer machine against the "
+             "observations and decides the equality. Table family: spec/TableRender.tla (render_table as head / delimiter / row actions; "
+             "AlignKept, CellsKept, Shape) with every table up to 2 columns x 1/2 rows in rotating source spellings, validated by spec/TableTrace.tla.",
         note="Trusted: the two real parsers as projections (harness/project.py), the concretiser harness/docgen.py. Inline fidelity is "
              "covered only through the tree comparison on generated texts. A failing case is excused only if it is step-for-step as-is "
-             "model behaviour and an open finding's trigger is present (D2, D21, D31).",
+             "model behaviour and an open finding's trigger is present (D2, D21, D31, D44, D46, D49).",
         technique="TLA+ model checking (TLC) of Render/Reader composition + spec->code replay + trace validation (DocTrace.tla)",
         design="§6 C01, §12"),
     "C02": dict(
@@ -30,7 +36,8 @@ CHECKS = {
              "semantic} x cleanups x smartquotes x ellipses x list-spacing, and plaintext; family R) are formatted twice by the real "
              "reformat_text, a subset through the CLI with --inplace twice. spec/IdemTrace.tla validates each pair: equal byte digests "
              "(verdict), equal abstracted lines, and for family S the second pass is itself a behaviour of the renderer machine "
-             "(Render(Read(Render(d))) = Render(d) in the model).",
+             "(Render(Read(Render(d))) = Render(d) in the model). Also: heading shapes and tag-pair documents, every block snippet in 11 "
+             "container paths, the inline family (spec/InlineTrace.tla: second pass emits the same symbols) and the table family (spec/TableTrace.tla).",
         note="Families S and T are exhaustive within their bounds; family R is a fixed corpus (not exhaustive). An idempotence failure is "
              "excused only as a consequence of an open C01 finding (first pass changed the structure AND the finding's trigger is present).",
         technique="TLA+ model checking (TLC) of the renderer/reader composition + two-pass replay + trace validation (IdemTrace.tla)",
@@ -58,7 +65,8 @@ CHECKS = {
              "family embeds 25 kinds of inline non-prose span (code spans with backticks/spaces/quotes/dots, template tags, comments, inline "
              "HTML, autolinks, bare URLs, links/images with destinations and titles, reference and footnote labels) at several positions of a "
              "wrapping paragraph x widths x typography on/off x wrap mode x containers; TLC compares the ordered literal-span sequences of "
-             "input and output (same extractor: real marko parse + tag/comment scanner).",
+             "input and output (same extractor: real marko parse + tag/comment scanner). Table family: spec/TableRender.tla / TableTrace.tla decide "
+             "that alignments and cells (escaped pipes, code spans holding pipes) come out as authored for every table of the model.",
         note="Trusted: harness abstraction of output code blocks, marko as the reader of literal spans. Inline family is a fixed construct "
              "list (not exhaustive).",
         technique="TLA+ model checking (TLC) of Code.tla + replay + trace validation (CodeTrace.tla, sequence equality in DocTrace.tla)",
